@@ -42,12 +42,12 @@ def _read_exact_any(ex, st, args, dest_ty, func, where):
     data, pos = cur.f[0], cur.f[1].t
     if isinstance(buf, VStruct) and buf.name == "[array]":
         n = I(len(buf.f))
-        ok = simp(z3.And(pos <= data.len, n <= data.len - pos))
+        ok = simp(n <= z3.If(pos <= data.len, data.len - pos, 0))
         new = VStruct("[array]", [VInt(simp(z3.If(ok, data.at(simp(pos + j)), old.t)), "u8") for j, old in enumerate(buf.f)])
         ex.store_ref(st, bref, new)
     elif isinstance(buf, VSeq):
         n = buf.len
-        ok = simp(z3.And(pos <= data.len, n <= data.len - pos))
+        ok = simp(n <= z3.If(pos <= data.len, data.len - pos, 0))
         # the whole buffer is overwritten on success: it becomes (a copy of) the data slice; on failure its content is unspecified
         junk = z3.Array("unspecified!%d" % next(ex.fresh), z3.IntSort(), z3.IntSort())
         view = VSeq(z3.If(ok, data.arr, junk), simp(z3.If(ok, data.off + pos, 0)), n, "u8")
@@ -59,6 +59,36 @@ def _read_exact_any(ex, st, args, dest_ty, func, where):
         raise Unsupported("read_exact into %r" % (buf,))
     ex.store_ref(st, ref, VStruct("Cursor", [data, VInt(simp(z3.If(ok, pos + n, data.len)), "u64")]))
     return VEnum("Result", simp(z3.If(ok, I(0), I(1))), {0: [UNIT], 1: [VOpaque("io::Error(UnexpectedEof)")]})
+
+
+def _read_any(ex, st, args, dest_ty, func, where):
+    """Read::read per its contract: Ok(n) with 1 <= n <= min(buf.len, remaining) (0 only at end of input or for an
+    empty buffer); exactly those n bytes are written.  A reader is NOT obliged to fill the buffer."""
+    ref, cur = _find_place(ex, st, args[0])
+    bref, buf = _find_place(ex, st, args[1])
+    if not (isinstance(cur, VStruct) and cur.name == "Cursor"):
+        raise Unsupported("read on %r" % (cur,))
+    data, pos = cur.f[0], cur.f[1].t
+    left = z3.If(pos <= data.len, data.len - pos, 0)
+    if isinstance(buf, VStruct) and buf.name == "[array]":
+        blen = I(len(buf.f))
+    elif isinstance(buf, VSeq):
+        blen = buf.len
+    else:
+        raise Unsupported("read into %r" % (buf,))
+    most = simp(z3.If(left < blen, left, blen))
+    n = ex.fresh_int("short_read", lo=0)
+    ex.assumes.append(z3.Implies(st.guard, z3.And(n <= most, z3.Implies(most > 0, n >= 1))))
+    if isinstance(buf, VStruct):
+        new = VStruct("[array]", [VInt(simp(z3.If(j < n, data.at(simp(pos + j)), old.t)), "u8") for j, old in enumerate(buf.f)])
+    else:
+        arr = buf.arr
+        for j in range(ex.byte_cap):
+            arr = z3.Store(arr, simp(buf.off + j), z3.If(j < n, data.at(simp(pos + j)), buf.at(I(j))))
+        new = VSeq(arr, buf.off, buf.len, buf.elem)
+    ex.store_ref(st, bref, new)
+    ex.store_ref(st, ref, VStruct("Cursor", [data, VInt(simp(pos + n), "u64")]))
+    return VEnum("Result", I(0), {0: [VInt(n, "usize")]})
 
 
 def _recording_write_all(ex, st, args, dest_ty, func, where):
@@ -169,6 +199,7 @@ def install(ex):
     S["Message::encode"] = _msg_encode
     S["Message::decode"] = _msg_decode
     A(r"^<R as (std::io::)?Read>::read_exact$", _read_exact_any, "Cursor::read_exact (array / whole Vec; all or UnexpectedEof)")
+    A(r"^<R as (std::io::)?Read>::read$", _read_any, "Read::read (contract: any 1..=min(buf, remaining) bytes; short reads allowed)")
     A(r"^<W as (std::io::)?Write>::write_all$", _recording_write_all, "Write::write_all (recorded)")
     A(r"^Vec::<u8>::resize$", _vec_resize, "Vec::resize (allocation request recorded; new contents unspecified)")
     A(r"^Vec::<u8>::with_capacity$", _vec_with_capacity, "Vec::with_capacity (allocation request recorded)")
